@@ -98,8 +98,9 @@ class C13(object):
     title = "Assembly always terminates with output or a source-level diagnostic"
     ops_key = "lines"
     chunk = 100
-    rule = ("Each run: a program text (valid / single-line mutant / random lines / PCR stress around the 8-16 bit "
-            "boundary / INCLUDE with missing file or cycle on SimFS) assembled by the real Program.process under the "
+    rule = ("Each run: a program text (valid / single-line mutant incl. over-long literals, long symbols, non-ASCII text / random "
+            "lines over printable ASCII / PCR and label,R sizing stress around the 8-16 bit boundary / symbol alias chains and cycles / "
+            "INCLUDE with missing file, cycle, directory, path through a file, unreadable file, empty and labelled includes on SimFS) assembled by the real Program.process under the "
             "step clock, one run in five through assembler.py main() on SimFS with output switches. A state is "
             "(workload class, mutation, outcome class, exception@function, line-count bucket, PCR statement count, "
             "api|cli, output switches); it is non-trivial when at least one statement reached the translator "
